@@ -12,6 +12,7 @@ import Usid.Driver.Slice
 import Usid.Driver.MainW
 import Usid.Driver.SliceTo
 import Usid.Driver.Reduce
+import Usid.Driver.Csv
 /-! Line-protocol driver over the hand-written models: one JSON request per line on stdin,
     one JSON response per line on stdout. -/
 namespace Usid.Driver
@@ -32,7 +33,8 @@ def handlers : List (String × (Json → R Json)) := [
   ("slice.nd", hSliceNd), ("slice.2d", hSlice2d),
   ("main.write", hMainWrite),
   ("sliceto.run", hSliceTo),
-  ("reduce.run", hReduce)
+  ("reduce.run", hReduce),
+  ("csv.lines", hCsvLines), ("csv.fs", hCsvFs)
 ]
 
 def respond (tbl : List (String × (Json → R Json))) (line : String) : String :=
